@@ -3,7 +3,8 @@ From Coq Require Import List Arith.
 From OV Require Import Base.Panic Base.Arith gen.Params Model.Roots
                        Proofs.Roots Proofs.RootsMore Proofs.RootsSafe Proofs.RootsRing Proofs.RootsField Proofs.RootsExamples.
 Import ListNotations.
-(* ================= the FLOAT half for the closed forms of degree <= 2, in the standard model of rounding (package quadround) =================
+(* ================= the FLOAT half for the closed forms, in the standard model of rounding (package quadround) =================
+   degree 1 and 2 completely; degree 3: the triple-root branch, and the Cardano branch under the hypotheses that exclude KF-C10-F.
    Proofs/RootsRound.v: the model's poly_solve / quadratic_solve instantiated at [RoundRAo eps O]: Complex<f64> = C = R * R
    (Coquelicot), every ROUNDED complex operation an arbitrary function with normwise relative error eps ([std_model eps O]:
    + - * / , Complex * f64, and Complex::sqrt with relative error eps with respect to SOME square root); negation, conjugation,
@@ -11,8 +12,11 @@ Import ListNotations.
    operation of the arithmetic (O : RoundOps) arbitrary.  NO hypothesis on the discriminant: cancellation in b^2 - 4ac does not
    harm the residual (normwise backward error of ONE root); the sign choice of the code is PROVED to avoid cancellation in
    b + sgn * sqrt(disc), with the rounded product conj(b) * sqrt(disc) the code tests.
-   The simultaneous componentwise form (both values roots of ONE quadratic with |db| <= k eps |b|) is false -- see
-   quadratic_componentwise_simultaneous_refuted_example in Proofs/RootsRoundEx.v (b = 0: the two returned values do not sum to 0). *)
+   The standard model excludes underflow / overflow, and that is not decoration: findings/C10-closed-form-scale.md (the real code
+   returns NaN for 1e-30 (x-1)(x-2)(x-3) and the wrong values 1.5, 1.333 for 1e-85 (x-1)(x-2)).
+   The simultaneous COMPONENTWISE form (both values roots of ONE quadratic with |db| <= k eps |b|) is false -- see
+   quadratic_componentwise_simultaneous_refuted_example below (b = 0: the two returned values do not sum to 0); the true simultaneous
+   statement is quadratic_simultaneous_backward_error. *)
 From Coq Require Import Reals.
 From Coquelicot Require Import Complex.
 From OV Require Import Proofs.RoundFlx Proofs.RootsRound Proofs.RootsRoundEx Proofs.RootsRoundFwd Proofs.RootsRoundCubic Proofs.RootsRoundCardano Proofs.RootsRoundFlx.
@@ -139,7 +143,7 @@ Check quadratic_q0_backward : forall (eps : R) (O : RoundOps) (a b c : C),
   (q <> RtoC 0 -> exists r0 r1 d : C, poly_solve (RoundRAo eps O) [c; b; a] false = Ok ([r0; r1], []) /\
                    (Cmod d <= 2 * eps + eps * eps)%R /\ (r0 * r1)%C = (c / a * (RtoC 1 + d))%C).
 Print Assumptions quadratic_q0_backward.
-(* non-vacuity of the six theorems above: eps = 1/1024 is admissible and [pert_ops (1/1024)] (every rounded operation returns
+(* non-vacuity of the theorems above: eps = 1/1024 is admissible and [pert_ops (1/1024)] (every rounded operation returns
    the exact result times 1 + 1/1024; Complex::sqrt = the principal square root times 1 + 1/1024) satisfies std_model and is
    really inexact: fl(1 * 1) <> 1 *)
 Example quadratic_backward_error_nonvacuous :
